@@ -26,7 +26,7 @@ from .common import (
     ValueMapType,
     call_mapper,
 )
-from .node import Node
+from .node import Node, _index_of
 from .tree import Tree
 
 
@@ -187,7 +187,7 @@ class TypedNode(Node):
     def prev_sibling(self, *, any_kind=False) -> TypedNode | None:
         """Return predecessor `of the same kind` or None if node is first sibling."""
         pc = self._parent._children
-        own_idx = pc.index(self)
+        own_idx = _index_of(pc, self)
         if own_idx > 0:
             for idx in range(own_idx - 1, -1, -1):
                 n = pc[idx]
@@ -199,7 +199,7 @@ class TypedNode(Node):
         """Return successor `of the same kind` or None if node is last sibling."""
         pc = self._parent._children
         pc_len = len(pc)
-        own_idx = pc.index(self)
+        own_idx = _index_of(pc, self)
 
         if own_idx < pc_len - 1:
             for idx in range(own_idx + 1, pc_len):
@@ -221,7 +221,7 @@ class TypedNode(Node):
             kc = self._parent._children
         else:
             kc = self._parent.get_children(self.kind)
-        return kc.index(self)
+        return _index_of(kc, self)
 
     def is_first_sibling(self, *, any_kind=False) -> bool:
         """Return true if this node is the first sibling, i.e. the first child
